@@ -95,6 +95,8 @@ def py_spec(kind, c, o):
                 if g != e:
                     return 'call %d (%s) answered %r, the property demands %r' % (i, c['ops'][i][0], g, e)
             return 'answers %r, demanded %r' % (got, exp)
+        if 'argv_after' in o and o['argv_after'] != list(c['argv']):
+            return 'the decorator changed sys.argv: %r -> %r (the decision only reads the command line)' % (c['argv'], o['argv_after'])
         if kind == 'handoff':
             if o['created'] != 0 or o['atexit'] != 0 or o['profile'] != ['ext', EXT_ID]:
                 return 'under kernprof: created=%s atexit=%s profile=%s' % (o['created'], o['atexit'], o['profile'])
@@ -118,6 +120,8 @@ def py_spec(kind, c, o):
         return kp_spec(c, o)
     if kind == 'subkp':
         return kp_sub_spec(c, o)
+    if kind == 'subops':
+        return subops_spec(c, o)
     if kind == 'sub':
         ops = sub_ops(c)
         exp, active, prefix = spec_history(c['env'], ['prog.py'] + c['args'], ops)
@@ -270,6 +274,44 @@ def kp_sub_cases(tier):
     return out
 
 
+def subops_cases(tier):
+    """whole interpreter runs in which profiling is switched on but NOTHING is decorated while it is on (and controls),
+    crossed with the 16 on/off combinations of the outputs"""
+    seqs = [[['enable', None]], [['decorate', None], ['enable', None]], [['enable', None], ['disable', None], ['decorate', None]],
+            [['enable', 'pre.fix'], ['disable', None], ['decorate', None], ['enable', None]],
+            [['enable', None], ['decorate', None]], [['decorate', None]]]
+    if tier == 'thorough':
+        seqs += [[['disable', None], ['enable', None]], [['enable', None], ['enable', 'q'], ['disable', None]], [['decorate', None], ['enable', None], ['disable', None], ['decorate', None]]]
+    out = []
+    for ops in seqs:
+        for wc in ALL_WC:
+            out.append(dict(env=None, args=[], ops=ops, wc=wc))
+    out.append(dict(env='1', args=[], ops=[['disable', None], ['decorate', None], ['enable', None]], wc=ALL_WC[15]))
+    return out
+
+
+def subops_spec(c, o):
+    if o['rc'] != 0 or o['obs'] is None:
+        return 'interpreter run failed rc=%s %s' % (o['rc'], o['stderr'][-200:])
+    exp, active, prefix = spec_history(c['env'], ['prog.py'] + c['args'], c['ops'])
+    sames = [e[0] == 'same' for e in exp if e[0] != 'unit']
+    if o['obs']['sames'] != sames:
+        return 'decorations returned-their-argument = %r, demanded %r' % (o['obs']['sames'], sames)
+    want = expected_seen(c['wc'], prefix, o['ts']) if active else []
+    if o['seen'] != want or o['traceback']:
+        return 'history %s: at exit %r appeared (traceback on stderr: %s), demanded %r' % (
+            ' '.join(op for op, _ in c['ops']), o['seen'], o['traceback'], want)
+    return None
+
+
+def q_subops(c, o):
+    if o['rc'] != 0 or o['obs'] is None or o['traceback']:
+        return '(false, false)'
+    argv = core.coq_list([core.coq_str(a) for a in ['prog.py'] + c['args']])
+    return '(sub_case %s %s %s %s %s %s %s)' % (q_ostr(c['env']), argv, q_ops(c['ops']), q_wc(c['wc']), core.coq_str(o['ts']),
+                                               core.coq_list([core.coq_bool(x) for x in o['obs']['sames']]), q_seen(o['seen']))
+
+
 def kp_sub_ops(c):
     return ([['enable', c['prefix']]] if c['how'] == 'enable' else []) + [['decorate', None]]
 
@@ -322,6 +364,15 @@ def gen_cases(tier, rnd):
             if o[0] == 'enable' and rnd.random() < 0.3:
                 o[1] = rnd.choice(['q', 'out/x', 'my.prof', 'p'])
         hist.append(dict(env=rnd.choice(ENVS), argv=rnd.choice(ARGVS), ops=ops, group='random'))
+    # 3b. what is decorated is a temporary wrapper object (functools.partial / staticmethod around a fresh function):
+    #     all histories up to length 3 over enable / disable / decorate-function / decorate-partial / decorate-staticmethod
+    shapes = [['enable', None], ['disable', None], ['decorate', None], ['decorate', 'partial'], ['decorate', 'static']]
+    for n in range(1, 4 if not thorough else 5):
+        for seq in itertools.product(shapes, repeat=n):
+            if not any(x[1] in ('partial', 'static') for x in seq):
+                continue
+            for env, argv in [('1', ['prog']), (None, ['prog'])]:
+                hist.append(dict(env=env, argv=argv, ops=[list(x) for x in seq], group='shapes'))
     # 4. kernprof hand-over, then every user history up to a length
     hl = 4 if thorough else 3
     hworlds = [(None, ['prog']), ('1', ['prog'])] + ([('off', ['prog', '--line-profile']), ('NO', [])] if thorough else [])
@@ -340,6 +391,7 @@ def gen_cases(tier, rnd):
     prefixes = [None, 'p', 'my.prof', 'a_b', 'bench.v2', 'run-1.5', 'out.d/profile', 'x.tar.gz', '.hidden'] if thorough \
         else [None, 'bench.v2', 'out.d/run-1.5']
     show = [dict(wc=wc, prefix=p) for p in prefixes for wc in ALL_WC]
+    show += [dict(wc=wc, prefix='empty.run', decorated=False) for wc in ALL_WC]     # active, but nothing was ever decorated
     # 7. whole interpreter runs
     sub = []
     sub_envs = [None, '1', '0', 'OFF', 'No', 'yes', 'false ', '', 'FALSE'] if thorough else [None, '1', 'OFF', 'false ']
@@ -451,7 +503,7 @@ def q_row(kind, c, o):
 def run_driver(impl, cases, tmp):
     payload = dict(tmp=str(tmp),
                    hist=cases['hist'] + [dict(c, ops=[['overwrite', None]] + c['ops']) for c in cases['handoff']] + cases['model_only'],
-                   show=cases['show'], sub=cases['sub'], subkp=cases.get('subkp', []))
+                   show=cases['show'], sub=cases['sub'], subkp=cases.get('subkp', []), subops=cases.get('subops', []))
     out = core.run_impl(impl, DRIVER, payload, timeout=1500)
     nh, no = len(cases['hist']), len(cases['handoff'])
     kp = []
@@ -460,7 +512,7 @@ def run_driver(impl, cases, tmp):
         ktmp.mkdir(parents=True, exist_ok=True)
         kp = K.run_driver(impl, cases['kernprof'], ktmp.resolve())
     return dict(hist=out['hist'][:nh], handoff=out['hist'][nh:nh + no], model_only=out['hist'][nh + no:],
-                show=out['show'], sub=out['sub'], subkp=out.get('subkp', []), kernprof=kp)
+                show=out['show'], sub=out['sub'], subkp=out.get('subkp', []), subops=out.get('subops', []), kernprof=kp)
 
 
 def run(tier, seed):
@@ -476,6 +528,7 @@ def run(tier, seed):
     cases = gen_cases(tier, rnd)
     cases['kernprof'] = kp_cases(tier)
     cases['subkp'] = kp_sub_cases(tier)
+    cases['subops'] = subops_cases(tier)
     try:
         out = run_driver(impl, cases, tmp)
 
@@ -483,8 +536,9 @@ def run(tier, seed):
             c2 = gen_cases('thorough', core.rng(seed + 1, PROP))
             c2['kernprof'] = kp_cases('thorough')
             c2['subkp'] = kp_sub_cases('thorough')
+            c2['subops'] = subops_cases('thorough')
             o2 = run_driver(impl, c2, tmp)
-            for kind in ('hist', 'handoff', 'show', 'sub', 'kernprof', 'subkp'):
+            for kind in ('hist', 'handoff', 'show', 'sub', 'kernprof', 'subkp', 'subops'):
                 for c, o in zip(c2[kind], o2[kind]):
                     why = py_spec(kind, c, o)
                     if why:
@@ -493,7 +547,7 @@ def run(tier, seed):
         res.search = search
 
         flat = []          # (kind, case, observation)
-        for kind in ('hist', 'handoff', 'model_only', 'show', 'sub', 'subkp', 'kernprof'):
+        for kind in ('hist', 'handoff', 'model_only', 'show', 'sub', 'subkp', 'subops', 'kernprof'):
             for c, o in zip(cases[kind], out[kind]):
                 flat.append((kind, c, o))
         model_ok = not any('build of' in f or 'translator refused' in f for f in res.obl['failures'])
@@ -508,6 +562,9 @@ def run(tier, seed):
                     continue
                 if kind == 'subkp':
                     rows.append((i, q_kp_sub(c, o)))
+                    continue
+                if kind == 'subops':
+                    rows.append((i, q_subops(c, o)))
                     continue
                 strs = [c.get('env')] + list(c.get('argv', [])) + [x[1] for x in c.get('ops', [])] + [o.get('prefix')] if kind != 'sub' \
                     else [c['env']] + c['args']
@@ -559,7 +616,7 @@ def run(tier, seed):
                 n_active += spec_history(c['env'], c['argv'], c['ops'])[1]
                 if any(k == 'decorate' for k, _ in c['ops']):
                     distinct.add((kind, c['env'], tuple(c['argv']), json.dumps(c['ops'])))
-            elif kind in ('show', 'sub', 'subkp'):
+            elif kind in ('show', 'sub', 'subkp', 'subops'):
                 distinct.add((kind, json.dumps(c, sort_keys=True)))
             elif kind == 'kernprof':
                 distinct.add((kind, json.dumps([[r['args'], r.get('pre_use'), r.get('setup_uses')] for r in c['runs']])))
@@ -616,7 +673,7 @@ def replay(path):
     tmp = core.SCRATCH_ROOT / 'tmp' / 'c14r'
     tmp.mkdir(parents=True, exist_ok=True)
     try:
-        cases = dict(hist=[], handoff=[], model_only=[], show=[], sub=[], subkp=[], kernprof=[])
+        cases = dict(hist=[], handoff=[], model_only=[], show=[], sub=[], subkp=[], subops=[], kernprof=[])
         cases[kind] = [c]
         o = run_driver(impl, cases, tmp)[kind][0]
     finally:
